@@ -464,6 +464,8 @@ func runC17(c *Ctx, r *Report) {
 	r.Doc("R-C17.7", "a manifest or head hash that was returned loads to the log it was produced from: the manifest carries the log's id and heads, the loaders hand id, entries and heads of what they read to the rebuilt log, and nothing is trimmed without a non-negative limit (adopted from C09)")
 	importRules(c, r, "C09", []string{"R-C09.1", "R-C09.2", "R-C09.5"}, "R-C17.7")
 	importRules(c, r, "C10", []string{"R-C10.1", "R-C10.13"}, "R-C17.7")
+	r.Doc("R-C17.8", "the block written for an entry carries every field exactly as the entry holds it (adopted from C08: a hash that was returned must load to the state at the moment it was produced, payload bytes included)")
+	importRules(c, r, "C08", []string{"R-C08.2", "R-C08.6"}, "R-C17.8")
 	errDiscipline(c, r, "R-C17.6", func(fn *Fn) bool {
 		return rootNamed(fn, "Write", "CreateEntryWithIO", "CreateEntry", "ToMultihashWithIO", "ToMultihash", "toMultihash", "Append", "WriteCBOR")
 	}, "the operation reports success (and hands out an identifier) although a step of writing the block failed", deliberateDiscards)
